@@ -177,7 +177,7 @@ func genC11(r *Rand, n int, thorough bool, emit func(string)) {
 			c := genComp(r, 120, true)
 			parts[j] = c.text(r)
 			if r.Chance(1, 8) {
-				parts[j] = r.Pick([]string{"foo", "", "1-", "x2", " 3", "4 ", "#", "1-2-3", "1x2"})
+				parts[j] = r.Pick([]string{"foo", "", "1-", "x2", " 3", "4 ", "#", "1-2-3", "1x2", "２０", "１-１０", "٣", "1-٣", "５x2"})
 			}
 		}
 		txt := strings.Join(parts, ",")
@@ -203,6 +203,22 @@ func genC11(r *Rand, n int, thorough bool, emit func(string)) {
 				many[j] = genComp(r, 60, false).text(r)
 			}
 			emit(fmt.Sprintf("padrange %s %d", hx(strings.Join(many, ",")), r.Range(2, 6)))
+		}
+		if i%40 == 31 {
+			// a long list (9-20 components) with empty components, straight after a long valid one
+			cnt := r.Range(9, 20)
+			full := make([]string, cnt)
+			holes := make([]string, cnt)
+			for j := range full {
+				full[j] = strconv.Itoa(100 + j)
+				holes[j] = genComp(r, 60, false).text(r)
+				if r.Chance(1, 4) || j == cnt-1 && r.Bool() || j == 0 && r.Chance(1, 3) {
+					holes[j] = ""
+				}
+			}
+			ww := r.Range(2, 6)
+			emit(fmt.Sprintf("padrange %s %d", hx(strings.Join(full, ",")), ww))
+			emit(fmt.Sprintf("padrange %s %d", hx(strings.Join(holes, ",")), ww))
 		}
 		if i%40 == 23 {
 			// two calls whose (text, width) pairs run into each other when written without a
@@ -277,8 +293,9 @@ func genC08(r *Rand, n int, thorough bool, emit func(string)) {
 // ---- C03 / C04: sequence strings ----
 
 var dirs = []string{"", "/", "/a/b/", "rel/", "./", "/proj/sh010.comp/", "/v1.2/", "/a b/", "/x_y-z/", "../up/", "/-/", "/1/"}
-var bases = []string{"foo.", "foo_", "foo", "", "a.b.", "shot_x", "shot_y", "take:", "list,", "name-", "v2_", "img.v", "é.", "beauty_left.", "a1b", "x"}
-var exts = []string{".exr", "", ".tar.gz", ".1x", ".jpg", ".a1", ".exr.tmp", ".v2.tif", ".", ".7z", ".e x"}
+var bases = []string{"foo.", "foo_", "foo", "", "a.b.", "shot_x", "shot_y", "take:", "list,", "name-", "v2_", "img.v", "é.", "beauty_left.", "a1b", "x",
+	"Scene 3, ", "v2-, ", "take 7,  ", "C:\\renders\\beauty.", "a\\b_"}
+var exts = []string{".exr", "", ".tar.gz", ".1x", ".jpg", ".a1", ".exr.tmp", ".v2.tif", ".", ".7z", ".e x", ".50%.jpg", ".a%b", ".tar%2Egz"}
 var padToks = []string{"#", "@", "##", "@@@", "#@", "@#@", "####", "@@@@@@@", "%d", "%04d", "%02d", "%1d", "%010d", "%012d", "$F", "$F4", "$F2", "$F04",
 	"$F12", "<UDIM>", "%(UDIM)d", "@@@@@@@@@@@@", "###"}
 
